@@ -356,6 +356,48 @@ def run_sol(case):
     # points inside the film plane are refused rather than answered
     sol.supercurrent_density = own_s * Junit
     sol.normal_current_density = own_n * Junit
+    # height scan: the same (m, 2) in-plane positions evaluated at one height after the other (scalar and array heights),
+    # consecutive calls on one Solution object with nothing else in between
+    sc_l = {"um": 1.0, "nm": 1e3, "mm": 1e-3}[lu]
+    xy = np.array([[0.4, -0.3], [-1.1, 0.6], [2.0, 0.2], [0.0, 0.0]]) * sc_l
+    for which in ("potential", "field"):
+        for h in (0.5, 2.5, 1.0, np.array([0.5, 2.5, 1.0, 0.7]), -0.8, 2.5):
+            hz = (np.asarray(h, float) * sc_l) if isinstance(h, np.ndarray) else float(h) * sc_l
+            P3 = np.column_stack([xy, np.broadcast_to(hz, (len(xy),))])
+            if which == "potential":
+                want = (ref_A(P3 * LEN[lu], src_si, own_s * CURR[cu] / LEN[lu], a_si) + ref_A(P3 * LEN[lu], src_si, own_n * CURR[cu] / LEN[lu], a_si)) / (FU[fu] * LEN[lu])
+                Ap = sol.vector_potential_at_position(xy, zs=hz, units=f"{fu} * {lu}", with_units=False, return_sum=False)
+                got = np.asarray(Ap["supercurrent_density"]) + np.asarray(Ap["normal_current_density"])
+            else:
+                want = (ref_B(P3 * LEN[lu], src_si, own_s * CURR[cu] / LEN[lu], a_si) + ref_B(P3 * LEN[lu], src_si, own_n * CURR[cu] / LEN[lu], a_si)) / FU[fu]
+                parts = sol.field_at_position(xy, zs=hz, vector=True, units=fu, with_units=False, return_sum=False)
+                got = np.asarray(parts.supercurrent) + np.asarray(parts.normal_current)
+            res.count("comparisons")
+            e = np.abs(got - want).max() / max(np.abs(want).max(), 1e-300)
+            if e > TOLERANCES["si"]:
+                res.violate("height-scan-differs-from-SI-sum", quantity=which, array_heights=isinstance(h, np.ndarray), units=fu, detail={"height": np.asarray(h).tolist(), "rel": float(e)})
+                break
+    # step scan: the same positions at one recorded step after the other (the answer belongs to the step that is loaded)
+    P3 = np.column_stack([xy, np.full(len(xy), 0.9 * sc_l)])
+    last = sol.solve_step
+    for i in range(sol.data_range[0], sol.data_range[1] + 1):
+        sol.solve_step = i
+        Ks_i = sol.supercurrent_density.to(f"{cu}/{lu}").magnitude
+        Kn_i = sol.normal_current_density.to(f"{cu}/{lu}").magnitude
+        want = (ref_A(P3 * LEN[lu], src_si, Ks_i * CURR[cu] / LEN[lu], a_si) + ref_A(P3 * LEN[lu], src_si, Kn_i * CURR[cu] / LEN[lu], a_si)) / (FU[fu] * LEN[lu])
+        wantB = (ref_B(P3 * LEN[lu], src_si, Ks_i * CURR[cu] / LEN[lu], a_si) + ref_B(P3 * LEN[lu], src_si, Kn_i * CURR[cu] / LEN[lu], a_si)) / FU[fu]
+        Ap = sol.vector_potential_at_position(P3, units=f"{fu} * {lu}", with_units=False, return_sum=False)
+        got = np.asarray(Ap["supercurrent_density"]) + np.asarray(Ap["normal_current_density"])
+        parts = sol.field_at_position(P3, vector=True, units=fu, with_units=False, return_sum=False)
+        gotB = np.asarray(parts.supercurrent) + np.asarray(parts.normal_current)
+        res.count("comparisons", 2)
+        scA, scB = max(np.abs(want).max(), 1e-300), max(np.abs(wantB).max(), 1e-300)
+        if np.abs(Ks_i).max() + np.abs(Kn_i).max() == 0:
+            continue
+        if np.abs(got - want).max() / scA > TOLERANCES["si"] or np.abs(gotB - wantB).max() / scB > TOLERANCES["si"]:
+            res.violate("step-scan-differs-from-SI-sum", units=fu, detail={"step": i})
+            break
+    sol.solve_step = last
     # the same positions buffer evaluated again after it was updated in place; the buffer itself is never modified
     buf = np.array(psets["five"][3], float)
     for shift in ((0.0, 0.0, 0.0), (0.4, -0.3, 0.25), (-1.1, 0.2, 0.5)):
